@@ -13,8 +13,14 @@ from . import core
 REGISTRY = {
     "C01": ("nixmc.props.e1", {}),
     "C03": ("nixmc.props.e1", {}),
-    "C06": ("nixmc.props.e1", {}),
+    "C06": ("nixmc.props.c06", {}),
     "C18": ("nixmc.props.e1", {}),
+    "C04": ("nixmc.props.e2props", {}),
+    "C05": ("nixmc.props.e2props", {}),
+    "C08": ("nixmc.props.e2props", {}),
+    "C09": ("nixmc.props.e2props", {}),
+    "C19": ("nixmc.props.e2props", {}),
+    "C14": ("nixmc.props.c14", {}),
 }
 
 
